@@ -45,6 +45,10 @@ def gen(rng, tier):
     cases = []
     n = 14 if tier == "quick" else 400
     docs_ = [xmlgen.to_xml_loadable(defgen.rnd_definition(rng)) for _ in range(n)]
+    for k, dd in enumerate(docs_):
+        if k % 2:       # every other document with its container set in a random order (forward base / nesting references:
+            dd["containers"] = list(dd["containers"])          # these are resolved through the document, not the lookup)
+            rng.shuffle(dd["containers"])
     for i, doc in enumerate(docs_):
         plain_ns = ("prefix", "xtce")
         plain = xmlgen.document_xml(doc, plain_ns)
